@@ -48,7 +48,7 @@ def main():
             basef = "/tmp/_translate_base.py"
             with open(basef, "w") as f:
                 f.write(subprocess.check_output(["git", "-C", VERIF, "show", "%s:harness/translate.py" % base]).decode())
-            rc = subprocess.call(["git", "merge-file", os.path.join(VERIF, rel), basef, os.path.join(src, rel)])
+            rc = subprocess.call(["git", "merge-file", "--union", os.path.join(VERIF, rel), basef, os.path.join(src, rel)])
             print("merged translate.py, conflicts=%d" % rc)
         elif rel in ("lean/Driver.lean", "lean/CLModel.lean"):
             mine = open(os.path.join(VERIF, rel)).read()
